@@ -151,8 +151,23 @@ def run(an: Analysis, rep):
                 "present" if mname in enc[1] else f"the encoder has no case for operand class {mname}", nontrivial=False)
     rep.run(r025, an, rep)
     rep.run(r026, an, rep)
+    from .common import SharedRules
+    from . import c10
+    rep.run(c10.format_rules, an, SharedRules(rep, "R02.L", "line-table format constants (shared with C10's R10.*): the line shown for an instruction is read through them"))
     rep.stats.update(an.stats(interps))
     rep.assumptions += ["compiler output never jumps into the middle of an EXTENDED_ARG sequence (CPython's assembler targets the first unit)"]
+
+
+def jump_rules(an: Analysis, rep, with_cellfree=True):
+    """R02.3 (+R02.4) for every interpreter version, and the parser offsets (R02.3/R02.5)."""
+    for V in VERSIONS:
+        ref = c11.reference(V)
+        f, arms = find_operand_decoder(an, V)
+        env = module_consts(an, f.module.name, V)
+        rep.run(r023, an, rep, V, f, arms, env, ref)
+        if with_cellfree:
+            rep.run(r024, an, rep, V, f, arms, env)
+    rep.run(r025, an, rep)
 
 
 def _jump_arg_exprs(f, arms):
